@@ -331,9 +331,12 @@ def run_case(R, r):
                     old = L.deep_str(t, obj, cache)
                 except Exception:
                     old = None
+                shp_slot = None
                 try:
                     slot_obj = L.nav(obj, path)
                     lo, hi = int(slot_obj._offset), int(slot_obj._offset) + int(slot_obj._get_size())
+                    if st[0] == "array":
+                        shp_slot = [int(x) for x in slot_obj._shape]
                 except Exception:
                     lo = hi = None
                 try:
@@ -351,6 +354,13 @@ def run_case(R, r):
                 except Exception as ex:
                     now = None
                     R.fail("C10:read-after-set-raises", f"{sx[:200]}: after assigning an instance to {L.pstr(path)}: {type(ex).__name__} {str(ex)[:100]}", c2)
+                if res == "ok" and st[0] == "array" and lo is not None:
+                    try:
+                        shp_new = [int(x) for x in inst._shape]
+                        if shp_slot is not None and shp_new != shp_slot:
+                            R.fail("C11:wrong-shape-accepted", f"{sx[:200]}: an existing {T.type_name(st)} of shape {shp_new} was assigned to the array at {L.pstr(path)} of shape {shp_slot} without error", c2)
+                    except Exception:
+                        pass
                 if res == "ok":
                     new_e0 = L.replace_at(t, e0, path, expected_of(st, ee))
                     w = L.expect_str(t, new_e0, cache)
@@ -641,6 +651,10 @@ def misuse_cases(R, r):
         ("non-member-object", lambda: setattr(h, "u", MC(c=1, _buffer=buf)), (TypeError, ValueError)),
         ("non-member-name", lambda: setattr(h, "u", ("MC", {"c": 1})), (TypeError, ValueError, KeyError)),
         ("offset-without-buffer", lambda: MA(a=1, _offset=8), (ValueError,)),
+        ("offset-zero-without-buffer", lambda: MA(a=1, _offset=0), (ValueError,)),
+        ("offset-zero-without-buffer-context", lambda: MA(a=1, _offset=0, _context=c1), (ValueError,)),
+        ("offset-without-buffer-array", lambda: xo.Float64[3]([1.0, 2.0, 3.0], _offset=0), (ValueError,)),
+        ("offset-without-buffer-string", lambda: xo.String("abc", _offset=0), (ValueError,)),
         ("foreign-context-buffer", lambda: MA(a=1, _context=c2, _buffer=buf), (ValueError,)),
     ):
         before_objs = (int(h.x), h.u.a if h.u is not None else None)
